@@ -4,6 +4,8 @@ CONSTANTS
   ROSChoices = {TRUE, FALSE}
   RefOutcomes = {"nil", "err"}
   CloseLate = FALSE
+  StopOnCancel = FALSE
+  SctxInit = {"live", "cancelled"}
   AllowTBD = FALSE
-INVARIANTS OneRefreshPerTick CtxFromConstructor ErrorsHandledOnce ScheduleConsulted NoRefreshAfterShutdown DoneClosedFirst WindowNeverTicks ShutdownResult
+INVARIANTS OneRefreshPerTick CtxFromConstructor ErrorsHandledOnce ScheduleConsulted NoRefreshAfterShutdown DoneClosedFirst WindowNeverTicks StopsOnlyOnShutdown ShutdownResult
 CHECK_DEADLOCK FALSE
